@@ -228,10 +228,8 @@ pub fn worker_main(engine: &dyn Engine, args: &[String]) -> i32 {
     };
     for idx in indices {
         track_line(1, &format!("R {}", idx));
-        let before = acc.digests.len();
-        let dig_before = acc.counters.get("last_digest").copied();
+        acc.counters.insert("last_digest".into(), 0);
         engine.run_one(seed, idx, tier, &mut acc);
-        let _ = (before, dig_before);
         if recheck_every > 0 && recheck_pick(seed, idx, recheck_every) {
             let d = acc.counters.get("last_digest").copied().unwrap_or(0);
             acc.recheck.push((idx, d));
@@ -255,7 +253,7 @@ pub fn worker_main(engine: &dyn Engine, args: &[String]) -> i32 {
     }
     let fired = crate::types::fired_counts();
     for (i, c) in crate::types::ALL_CB.iter().enumerate() {
-        if fired[i] > 0 {
+        if fired[i] > 0 && !acc.faults_fired.contains_key(&format!("panic_in_{}", c.name())) {
             acc.bump("faults", &format!("panic_in_{}", c.name()), fired[i]);
         }
     }
@@ -406,7 +404,7 @@ pub fn replay_in_child(case: &Case, dir: &Path) -> Result<Option<FailRec>, Strin
     }
     let stderr = std::fs::read_to_string(&errp).unwrap_or_default();
     let info = classify_abort(&out.status, &stderr);
-    Ok(Some(FailRec { props: case.property.clone(), class: info.class, msg: info.detail, step: usize::MAX }))
+    Ok(Some(FailRec { props: case.property.clone(), class: info.class, msg: info.detail, step: 0 }))
 }
 
 pub fn replay_inner_main(engine: &dyn Engine, case: &Case) -> i32 {
